@@ -1,6 +1,7 @@
 mod alloc;
 mod canon;
 mod check;
+mod cross;
 mod exec;
 mod gen;
 mod hostile;
@@ -84,6 +85,47 @@ fn real_main() -> i32 {
         }
         Some("errtable") => {
             print!("{}", tables::error_table_lean());
+        }
+        Some("cross") => {
+            // kharness cross <prop> <per-generator> <seed>: this property's judge over the other generators' histories
+            let prop = &args[2];
+            let per: u64 = args[3].parse().unwrap();
+            let seed: u64 = args.get(4).and_then(|s| s.parse().ok()).unwrap_or(1);
+            exec::install_panic_hook();
+            let world = transport::new_world();
+            check::GEN_WORLD.with(|w| *w.borrow_mut() = Some(world.clone()));
+            let mut dist = std::collections::BTreeMap::new();
+            if std::env::var("KH_WL").is_err() {
+                std::env::set_var("KH_CROSS_ALL", "1");
+            }
+            let scs = check::foreign_scenarios_tagged(prop, per, seed, &mut dist);
+            let mut nj = 0;
+            let mut nm = 0;
+            let mut by: std::collections::BTreeMap<String, u64> = std::collections::BTreeMap::new();
+            let only = std::env::var("KH_ONLY").ok();
+            for (g, sc) in scs {
+                if let Some(o) = &only {
+                    if &g != o {
+                        continue;
+                    }
+                }
+                let (mm, jj, _, _, _) = check::run_scenario(&world, prop, &sc);
+                if !mm.is_empty() {
+                    nm += 1;
+                }
+                by.entry(g.clone()).or_insert(0);
+                if !jj.is_empty() {
+                    nj += 1;
+                    *by.entry(g.clone()).or_insert(0) += 1;
+                    println!("JUDGED [{}] {}", g, jj[0].chars().take(300).collect::<String>());
+                    if std::env::var("KH_SHOW").is_ok() {
+                        for l in &sc {
+                            println!("    {}", l.chars().take(200).collect::<String>());
+                        }
+                    }
+                }
+            }
+            println!("cross {}: judged {} mismatching {} | {}", prop, nj, nm, by.iter().map(|(k, v)| format!("{}:{}", k, v)).collect::<Vec<_>>().join(" "));
         }
         Some("apitable") => {
             exec::install_panic_hook();
